@@ -384,7 +384,6 @@ class H5Explorer:
 
     # -- search -------------------------------------------------------------
     def bfs(self, depth, first_group=None):
-        ctx = self.ctx
         seen = set()
         frontier = [((), None, {}, {})]     # (history, file bytes, model, per-location status of the last check)
         nobj = len(self.objs)
@@ -595,7 +594,7 @@ def run_table(ctx, sc, name):
                        "columns / unit settings cM,M,centiMorgans,Morgans / unscale / (location, scale) arguments"})
     for prof in P.profiles(name, "wide"):
         obj = _table_obj(name, prof, ctx.seed)
-        for cid, w, r, cmp_ in P.table_cases(name, obj, ctx.tier):
+        for cid, _w_, _r_, _cmp in P.table_cases(name, obj, ctx.tier):
             for form in ("pandas", "csv"):
                 table_case(ctx, sc, name, prof, cid, form, ctx.seed)
     ctx.flag(f"table:{name}")
